@@ -397,7 +397,7 @@ def e_bad_names(rng, m):
         if not t:
             return None
         old = t["name"]
-        t["name"] = rng.choice(["1bad", "_x", "a b"])
+        t["name"] = rng.choice(["1bad", "_x", "a b", old + "\n", "\n" + old])
         # keep references consistent so this is the only problem
         for c, _, _ in cs:
             for ch in c["children"]:
@@ -411,12 +411,13 @@ def e_bad_names(rng, m):
         return "bad type name"
     c, kt, _ = rng.choice(cs)
     if k == "keyname":
-        c["children"].append(_newkey(rng.choice(family.BAD_KEYS[kt][:2]),
-                                     "badname_1"))
+        c["children"].append(_newkey(rng.choice(
+            family.BAD_KEYS[kt][:2] + ["zeta9\n", "zeta9\t", "\nzeta9"]),
+            "badname_1"))
         return "key name invalid under " + kt
     if k == "attribute":
         c["children"].append(_newkey("zeta9", rng.choice(["not-ident", "1x",
-                                                          "a.b"])))
+                                                          "a.b", "zeta9\n"])))
         return "bad attribute"
     if k == "getSection":
         c["children"].append(_newkey("zeta9", "getSectionThing"))
@@ -426,15 +427,15 @@ def e_bad_names(rng, m):
         return None
     if k == "required":
         ch["extra_attrs"] = {"required": rng.choice(["maybe", "true", "YES",
-                                                     "1", ""])}
+                                                     "1", "", "yes\n"])}
         return "bad required value"
     if k == "datatype":
         if ch["kind"] not in ("key", "multikey"):
             return None
         ch["extra_attrs"] = {"datatype": rng.choice(["nosuchdt", "in teger",
-                                                     "1x"])}
+                                                     "1x", "integer\n"])}
         return "unknown datatype"
-    ch["extra_attrs"] = {"handler": rng.choice(["1bad", "a b"])}
+    ch["extra_attrs"] = {"handler": rng.choice(["1bad", "a b", "h1\n"])}
     return "bad handler name"
 
 
@@ -554,7 +555,36 @@ def e_section_of_schema(rng, m):
     return "section '+' without attribute"
 
 
-EDITS = [e_dup_type, e_dup_key, e_dup_attr, e_hyphen_underscore,
+def e_more_names(rng, m):
+    """Further name rules: a malformed prefix, an abstract type without a
+    name, a section type without a name."""
+    k = rng.choice(["prefix", "abstract-noname", "type-noname",
+                    "prefix-on-type"])
+    if k == "prefix":
+        if m.get("prefix"):
+            return None
+        m["prefix"] = rng.choice(["1bad", "a..b", ".rel", "a b", "a.",
+                                  "zcverif_dt\n"])
+        return "malformed schema prefix"
+    if k == "abstract-noname":
+        t = _pick(rng, [t for t in m["types"] if t["kind"] == "abstract"])
+        if not t:
+            return None
+        t["name"] = ""
+        return "abstracttype without a name"
+    t = _pick(rng, [t for t in m["types"] if t["kind"] == "section"])
+    if not t:
+        return None
+    if k == "type-noname":
+        t["name"] = ""
+        return "sectiontype without a name"
+    if t.get("prefix"):
+        return None
+    t["prefix"] = rng.choice(["1bad", "a..b", "a b", "..x", "x."])
+    return "malformed sectiontype prefix"
+
+
+EDITS = [e_more_names, e_dup_type, e_dup_key, e_dup_attr, e_hyphen_underscore,
          e_inherited_clash, e_inherited_attr_clash, e_use_before_def, e_extends_abstract,
          e_implements_concrete, e_wild_without_attr, e_key_star,
          e_multisection_fixed, e_default_on_required, e_default_attr_on_wild,
